@@ -1518,6 +1518,9 @@ class ContactHandler(Messenger, dbus.service.Object):
             if not self._in_sess:
                 # waiting for session
                 return True
+            if self._in_term:
+                # no new transfer is started once terminating
+                return False
             if not self._tx_pend_start:
                 # nothing to do
                 return False
